@@ -153,6 +153,7 @@ func runC12(c *Ctx, tier string) {
 	// P5
 	runC12P5(c)
 	runJournalFreshness(c, "C12-F1")
+	runJournalKeyUniqueness(c, "C12-U1")
 }
 
 func runC12P1(c *Ctx) {
